@@ -146,7 +146,7 @@ CFGS = {
 }
 
 
-def subject_source(metas, extra_src=""):
+def subject_source(metas, extra_src="", pairs=()):
     """defs.rs of the subjects crate: every accepted definition as a real derived enum."""
     parts = ["use logos::Logos;\n"]
     arms = []
@@ -157,14 +157,22 @@ def subject_source(metas, extra_src=""):
         fn = "run_str" if m["utf8"] else "run_bytes"
         arms.append("        %d => crate::%s::<D%d>(req.bytes, req, out)," % (m["idx"], fn, m["idx"]))
     parts.append(extra_src)
+    api_arms = []
+    for (pidx, ia, ib, is_str) in pairs:
+        mkf = "|b: &'_ [u8]| std::str::from_utf8(b).ok()" if is_str else "|b: &'_ [u8]| Some(b)"
+        parts.append("fn mk_p%d<'a>(b: &'a [u8]) -> Option<&'a %s> { %s }" % (pidx, "str" if is_str else "[u8]", "std::str::from_utf8(b).ok()" if is_str else "Some(b)"))
+        parts.append("crate::api_pair!(api_p%d, D%d, D%d, mk_p%d);" % (pidx, ia, ib, pidx))
+        api_arms.append("        %d => api_p%d(bytes, partial, script, out)," % (pidx, pidx))
+    parts.append("pub fn dispatch_api(pidx: usize, bytes: &[u8], partial: bool, script: &str, out: &mut String) -> bool {\n    match pidx {\n"
+                 + "\n".join(api_arms) + "\n        _ => return false,\n    }\n    true\n}\n")
     parts.append("pub fn dispatch(idx: usize, req: &crate::Req, out: &mut String) -> bool {\n    match idx {\n"
                  + "\n".join(arms) + "\n        _ => return false,\n    }\n    true\n}\n")
     return "\n".join(parts)
 
 
-def build_subjects(metas, cfgs, name, extra_src="", template="subj-template"):
+def build_subjects(metas, cfgs, name, extra_src="", template="subj-template", pairs=()):
     """Build the subjects crate for each configuration in parallel; returns {cfg: binary}."""
-    src = subject_source(metas, extra_src)
+    src = subject_source(metas, extra_src, pairs)
     tdir_src = os.path.join(HARNESS, template)
     tmpl_hash = sha(*[open(os.path.join(dp, f)).read() for dp, dn, fn in sorted(os.walk(tdir_src)) for f in sorted(fn) if not f.endswith(".lock")])
     key = sha(src, tmpl_hash)[:16]
